@@ -216,7 +216,7 @@ DoStepK(r, trusted, span) ==
                      !.div = IF div # {} /\ Len(@) < MaxKept
                              THEN Append(@, [run |-> r.run, i |-> r.i, actor |-> a, site |-> r.site, next |-> r.next, fields |-> div])
                              ELSE @,
-                     !.unmodelled = IF ~isEnv /\ ~known /\ trusted THEN @ \cup {r.site} ELSE @,
+                     !.unmodelled = IF ~isEnv /\ ~known /\ trusted /\ ~hugeCfg THEN @ \cup {r.site} ELSE @,
                      !.oor = @ + (IF oor THEN 1 ELSE 0),
                      !.sites = [x \in DOMAIN @ \cup {r.site} |-> IF x = r.site THEN (IF x \in DOMAIN @ THEN @[x] ELSE 0) + 1 ELSE @[x]],
                      !.nverd = @ + Len(newV),
